@@ -299,7 +299,7 @@ static void __print_time_unit(int64_t delta_nsec, bool needs_sign)
 	};
 	char *unit;
 	unsigned limit[] = {
-		1000, 1000, 1000, 60, 24, INT_MAX,
+		1000, 1000, 1000, 60, 60, INT_MAX,
 	};
 	unsigned idx;
 
